@@ -15,7 +15,7 @@ LEVEL_TEXT = ('Lean 4 theorems about the executable blur model at ℂ/ℝ whose 
               'circular shifts; zero extent is the identity on every non-negative image; jitter/smear keep the total of every image — the all-zero image included in all three: the zero-total guard `if np.sum(out) == 0: return out` is regenerated from the sources (Gen.bw…RenormGuard) and the model follows it, so no statement leans on x/0 = 0; only '
               'extent/pixelscale·oversample enters (unit invariance); pixel and jitter kernels are Hermitian on every shape and smear on odd axes, hence the '
               'filtered image is real and the output equals the exact circular convolution wherever that is non-negative (total kept) — pixel, jitter: all '
-              'shapes; smear: odd×odd, with a proved bound on even axes — at most the mean modulus of the image\'s own spectrum on the Nyquist row/column, before and after renormalisation — and exactness for images with no content on those lines (smear_exact_when_nyquist_free); the convolution is the spatial circular convolution with ifft2(K). The driver runs '
+              'shapes; smear: odd×odd; and the same for the functions as the sources compose them, renormalisation and zero-total guard included (blurs_return_nonneg_convolution) — with a proved bound on even axes — at most the mean modulus of the image\'s own spectrum on the Nyquist row/column, before and after renormalisation — and exactness for images with no content on those lines (smear_exact_when_nyquist_free); the convolution is the spatial circular convolution with ifft2(K). The driver runs '
               'these very definitions at doubles against the real functions; the composition abs∘ifft2∘(·kernel)∘fft2, the renormalisation expression, the '
               'angle=None branch and pixelate\'s call wiring are regenerated from the sources as well (pixelate_wiring: shape arithmetic plus rfl checks of the regenerated constants).')
 LEVEL_NOTE = ('Partial: for smear on even-sized axes the unpaired Nyquist row/column breaks Hermitian symmetry; the deviation of the output (before and after '
